@@ -188,6 +188,9 @@ type vfPoolScenario struct {
 	// ViaGRPC (with Real): the manager is built by the public NewGRPCMuxManager from a cluster definition whose muxCount
 	// is Size (so the way the configured count reaches the provider is part of what runs).
 	ViaGRPC bool `json:"via_grpc,omitempty"`
+	// ProbesBeforeStart: CanAcceptConnections is asked this many times before the manager is started (a health or VIP
+	// probe arriving during start-up)
+	ProbesBeforeStart int `json:"probes_before_start,omitempty"`
 }
 
 type vfPoolJob struct {
@@ -221,6 +224,7 @@ type vfPoolExec struct {
 	peers       []*vfPeer
 	failSession bool
 	cancelled   bool
+	minuted     bool
 	now         int
 	viol        []vfViolation
 	events      []string
@@ -300,8 +304,11 @@ func vfNewPoolExec(sc vfPoolScenario) *vfPoolExec {
 		panic(err)
 	}
 	e.mm = mm.(*multiMuxManager)
-	// Start() waits MuxManagerStartDelay after starting the provider; only the provider matters here
-	e.mm.muxProvider.Start()
+	for i := 0; i < sc.ProbesBeforeStart; i++ {
+		_ = e.mm.CanAcceptConnections()
+	}
+	// the manager's own Start: the provider, the once-a-minute status goroutine, and the start-up delay (virtual time)
+	e.mm.Start()
 	return e
 }
 
@@ -408,6 +415,9 @@ func (e *vfPoolExec) enabled() []string {
 	if e.now < 2 {
 		out = append(out, "adv")
 	}
+	if !e.minuted {
+		out = append(out, "minute")
+	}
 	return out
 }
 
@@ -444,6 +454,10 @@ func (e *vfPoolExec) apply(a string) error {
 	case "adv":
 		e.now++
 		time.Sleep(11 * time.Second) // beyond yamux's 10 s connection write timeout
+	case "minute":
+		// a quiet minute: the manager's status ticker fires once, whatever the session table holds at that moment
+		e.minuted = true
+		time.Sleep(61 * time.Second)
 	default:
 		return fmt.Errorf("unknown action %s", a)
 	}
@@ -472,7 +486,7 @@ func (e *vfPoolExec) invariant() {
 
 func (e *vfPoolExec) key() string {
 	var sb strings.Builder
-	fmt.Fprintf(&sb, "t=%d cancelled=%v waiting=%v avail=%v live=%v closed=%v fail=%v|", e.now, e.cancelled, e.waiting(), e.mm.CanAcceptConnections(), e.liveIDs(), e.mm.IsClosed(), e.failSession)
+	fmt.Fprintf(&sb, "m=%v t=%d cancelled=%v waiting=%v avail=%v live=%v closed=%v fail=%v|", e.minuted, e.now, e.cancelled, e.waiting(), e.mm.CanAcceptConnections(), e.liveIDs(), e.mm.IsClosed(), e.failSession)
 	for i, c := range e.conns {
 		fmt.Fprintf(&sb, "%d:%s/%v/%v,", i, e.peers[i].kind, c.closed, e.peers[i].killed)
 	}
@@ -553,6 +567,7 @@ func vfRunPool(t *testing.T, job *vfPoolJob) (out vfPoolOut) {
 			}
 		}()
 		synctest.Test(t, func(t *testing.T) {
+			vrt.ResetLocks()
 			e := vfNewPoolExec(job.Sc)
 			synctest.Wait()
 			for _, a := range job.Path {
@@ -584,6 +599,11 @@ func vfRunPool(t *testing.T, job *vfPoolJob) (out vfPoolOut) {
 				_ = s.Close()
 			}
 			time.Sleep(time.Minute + time.Second)
+			synctest.Wait()
+			if bl := vrt.BlockedLockers(); len(bl) > 0 {
+				e.violate("stuck/goroutine-waits-for-a-lock-nobody-releases", fmt.Sprintf("after shutdown and one more minute: %v", bl))
+			}
+			vrt.AbandonBlockedLockers()
 			synctest.Wait()
 			vrt.SetFakeNet(nil)
 			out.Viol = e.viol
@@ -647,21 +667,30 @@ func TestVerifC10(t *testing.T) {
 		role string
 		real bool
 		grpc bool
+		// probed: CanAcceptConnections is asked (pool size) times before the manager starts
+		probed bool
 	}
-	for _, fm := range []fam{{"establisher", false, false}, {"receiver", false, false}, {"establisher", true, false}, {"receiver", true, false}, {"establisher", true, true}, {"receiver", true, true}} {
+	for _, fm := range []fam{{"establisher", false, false, false}, {"receiver", false, false, false}, {"establisher", true, false, false}, {"receiver", true, false, false}, {"establisher", true, true, false}, {"receiver", true, true, false},
+		{"receiver", false, false, true}} {
 		role := fm.role
 		if fm.real {
 			role += "(real provider)"
+		}
+		if fm.probed {
+			role += "(capacity probed before start)"
 		}
 		if fm.grpc {
 			role += "(via NewGRPCMuxManager)"
 		}
 		for _, size := range sizes {
 			depth := depth
-			if fm.grpc {
+			if fm.grpc || fm.probed {
 				depth = 3 // the configured count and the wiring of the public constructor: short histories suffice
 			}
 			sc := vfPoolScenario{Size: size, Role: fm.role, MaxDepth: depth, Real: fm.real, ViaGRPC: fm.grpc}
+			if fm.probed {
+				sc.ProbesBeforeStart = size
+			}
 			type node struct {
 				path    []string
 				enabled []string
